@@ -27,7 +27,7 @@ CONFIGS = {
     },
     "C13": {
         "quick": ["Asm_sym_q.cfg", "Asm_chunk_q.cfg", "Asm_chunk2_q.cfg"],
-        "thorough": ["Asm_sym_t.cfg", "Asm_chunk_t.cfg", "Asm_chunk2_t.cfg"],
+        "thorough": ["Asm_sym_t.cfg", "Asm_chunk_t.cfg", "Asm_chunk2_t.cfg", "Asm_mini5_t.cfg"],
     },
 }
 SAMPLE = {"C12": {"quick": 5000, "thorough": 60000},
